@@ -12,7 +12,7 @@ Z3_OLD = '/usr/bin/z3'
 CVC5_BIN = '/usr/bin/cvc5'
 
 RLIMIT = int(os.environ.get('PYVC_RLIMIT', '60000000'))   # deterministic z3 resource limit (~60 s of work)
-WALL = int(os.environ.get('PYVC_WALL', '600'))              # safety net only; maps to unknown
+WALL = int(os.environ.get('PYVC_WALL', '240'))              # safety net only; maps to unknown
 
 
 def smt2_text(hyps, goal, negate=True):
@@ -58,14 +58,15 @@ def portfolio(text, expect_sat=False):
 	"""z3 5.1 (default, then E-matching only, then another seed), z3 4.8.12, cvc5: first definite answer wins.
 	Budgets are rlimits (deterministic); the wall clock is a safety net."""
 	total = 0.0
+	W1 = max(WALL // 4, 10)
 	attempts = [
-		('z3-5.1', lambda: run_z3(text, rlimit=RLIMIT // 4, wall=WALL // 2)),
-		('z3-5.1/ematching', lambda: run_z3(text, rlimit=RLIMIT // 4, wall=WALL // 2, extra=['smt.mbqi=false'])),
-		('z3-4.8.12', lambda: run_z3(text, rlimit=RLIMIT // 4, wall=WALL // 2, binary=Z3_OLD)),
-		('cvc5-1.0.3', lambda: run_cvc5(text, wall=WALL // 2)),
-		('z3-5.1/seed7', lambda: run_z3(text, rlimit=RLIMIT // 4, wall=WALL, extra=['smt.random_seed=7', 'sat.random_seed=7'])),
-		('z3-5.1/seed3', lambda: run_z3(text, rlimit=RLIMIT // 4, wall=WALL, extra=['smt.random_seed=3', 'sat.random_seed=3'])),
-		('z3-5.1/seed11', lambda: run_z3(text, rlimit=RLIMIT // 4, wall=WALL, extra=['smt.random_seed=11', 'sat.random_seed=11'])),
+		('z3-5.1', lambda: run_z3(text, rlimit=RLIMIT // 4, wall=W1)),
+		('z3-5.1/ematching', lambda: run_z3(text, rlimit=RLIMIT // 8, wall=W1 // 2, extra=['smt.mbqi=false'])),
+		('z3-4.8.12', lambda: run_z3(text, rlimit=RLIMIT // 8, wall=W1 // 2, binary=Z3_OLD)),
+		('cvc5-1.0.3', lambda: run_cvc5(text, wall=W1 // 2)),
+		('z3-5.1/seed7', lambda: run_z3(text, rlimit=RLIMIT // 8, wall=W1 // 2, extra=['smt.random_seed=7', 'sat.random_seed=7'])),
+		('z3-5.1/seed3', lambda: run_z3(text, rlimit=RLIMIT // 8, wall=W1 // 2, extra=['smt.random_seed=3', 'sat.random_seed=3'])),
+		('z3-5.1/seed11', lambda: run_z3(text, rlimit=RLIMIT // 8, wall=W1 // 2, extra=['smt.random_seed=11', 'sat.random_seed=11'])),
 		('z3-5.1/full', lambda: run_z3(text, rlimit=RLIMIT, wall=WALL)),
 	]
 	if 'str.' in text or '(String' in text or ' String' in text:
